@@ -67,6 +67,16 @@ fn alphabet(own: u16, foreign: u16, rich: bool) -> Vec<(String, &'static str)> {
     v.push((format!("RS.{}.UNC", own), "sign-side-kind"));
     v.push((format!("AO.{}.RCF", own), "sign-side-kind"));
     v.push((format!("UN.{}.9.0102", own), "unknown-frame"));
+    // frames nobody understands that look like something: a bare type-1 / type-6 frame (a chunk count or "pixels complete"
+    // that was not decoded as one), a type-0 frame with a chunk's worth of data, for this sign, another one and address 1
+    v.push((format!("UN.{}.1.-", own), "unknown-frame"));
+    v.push(("UN.1.1.-".to_string(), "unknown-frame"));
+    v.push((format!("UN.{}.6.-", own), "unknown-frame"));
+    v.push((format!("UN.{}.6.-", foreign), "unknown-frame"));
+    v.push((format!("UN.{}.0.{}", own, chunk(16, 3)), "unknown-frame"));
+    // chunks at the top of the 16-bit offset range (offset + length passes 65535)
+    v.push((format!("SD.65520.{}", chunk(16, 9)), "data-chunk-high-offset"));
+    v.push((format!("SD.65535.{}", chunk(17, 9)), "data-chunk-high-offset"));
     let blocks = config_blocks();
     let nb = if rich { blocks.len() } else { 6 };
     for (b, _) in blocks.iter().take(nb) {
@@ -596,6 +606,31 @@ fn gen_vsign(ctx: &mut Ctx) {
         let res = ctx.case(line.clone(), true, "many-buffered-bytes");
         ctx.monitor(!res.contains("PANIC"), "C12-no-panic", "VSL 3 M <262 chunks of 255 bytes at non-zero offsets>", &res);
     }
+    // transfers made of nothing but 0xFF (what padding looks like): exactly one page, a chunk too many, two pages, half a
+    // page, with the right and a wrong count, ended by the count or by a new page
+    for (bi, plen) in [(0usize, 96usize), (2, 16)] {
+        let block = &config_blocks()[bi].0;
+        let ff16 = hex_of_bytes(&[0xFFu8; 16]);
+        let p = plen / 16;
+        for (nchunks, wrap) in [(p, false), (p + 1, false), (2 * p, true), (2 * p, false), ((p / 2).max(1), false), (2 * p + 1, true), (3 * p, false)] {
+            for count_delta in [0i64, 1] {
+                for restart in [false, true] {
+                    let mut msgs = vec!["RO.3.RCF".to_string(), format!("SD.0.{}", block), "DC.1".to_string(), "RO.3.RPX".to_string()];
+                    for i in 0..nchunks {
+                        msgs.push(format!("SD.{}.{}", if wrap { (i * 16) % plen } else { i * 16 }, ff16));
+                    }
+                    if restart {
+                        msgs.push(format!("SD.0.{}", chunk(16, 1)));
+                    }
+                    msgs.push(format!("DC.{}", nchunks as i64 + restart as i64 + count_delta));
+                    msgs.extend(["QS.3".to_string(), "PC.3".to_string(), "QS.3".to_string()]);
+                    let line = format!("VSL 3 M {}", msgs.join(" "));
+                    let res = ctx.case(line.clone(), true, "all-ff-transfer");
+                    ctx.monitor(!res.contains("PANIC"), "C12-no-panic", &line, &res[..res.len().min(200)]);
+                }
+            }
+        }
+    }
     // the 16-bit chunk counter: a transfer longer than 65535 chunks
     if thorough {
         let mut msgs = vec!["RO.3.RCF".to_string(), format!("SD.0.{}", config_blocks()[2].0), "DC.1".to_string(), "RO.3.RPX".to_string()];
@@ -641,7 +676,9 @@ fn gen_c14(ctx: &mut Ctx) {
         for _ in 0..steps {
             let target = if rng.chance(1, 8) { *rng.pick(&absent).max(&if addrs.contains(&0) { 9 } else { 0 }) } else { *rng.pick(&addrs) };
             let ti = addrs.iter().position(|a| *a == target);
-            let m: String = match rng.below(12) {
+            let m: String = match rng.below(14) {
+                12 => format!("UN.{}.{}.-", target, rng.pick(&[6u8, 1, 2, 9])),
+                13 => format!("UN.{}.{}.{}", target, rng.pick(&[0u8, 1, 6]), chunk(rng.pick(&[1usize, 2, 16]).clone(), 5)),
                 0 => format!("HE.{}", target),
                 1 => format!("QS.{}", target),
                 2 | 3 => {
@@ -682,7 +719,11 @@ fn gen_c14(ctx: &mut Ctx) {
             for i in 0..k {
                 shadows[i] = shadow_after(shadows[i], Address(addrs[i]), before[i].state(), &msg);
             }
-            let r = guarded(|| bus.process_message(msg_of_str(&m)));
+            // odd walks reach the bus through the SignBus trait (as Sign and Odk do), even ones call it directly
+            fn via_trait<'a, B: flipdot_core::SignBus>(b: &mut B, m: Message<'_>) -> Result<Option<Message<'a>>, Box<dyn std::error::Error + Send + Sync>> {
+                b.process_message(m)
+            }
+            let r = if wk % 2 == 1 { guarded(|| via_trait(&mut bus, msg_of_str(&m))) } else { guarded(|| bus.process_message(msg_of_str(&m))) };
             hist.push(m.clone());
             let line = format!("BUS {} {} {}", k, head, hist.join(" "));
             let reply = match r {
@@ -775,6 +816,45 @@ fn gen_c14(ctx: &mut Ctx) {
         }
         let _ = failed;
         ctx.case(format!("BUS {} {} {}", k, head, hist.join(" ")), true, &format!("walk-{}-signs", k));
+    }
+    // a long-lived bus: more than 65 536 messages for other addresses and for nobody pass a sign that is in a state a query
+    // would move on (page show / load in progress); it must sit there untouched the whole time
+    for (trans_op, later) in [("SLP", 65_600usize), ("SLP", 131_100)].into_iter().take(if thorough { 2 } else { 1 }) {
+        let block = &config_blocks()[0].0; // 90 x 7: one page is 96 bytes
+        let mut msgs: Vec<String> = vec!["RO.3.RCF".into(), format!("SD.0.{}", block), "DC.1".into(), "QS.3".into(), "RO.3.RPX".into()];
+        for i in 0..6usize {
+            msgs.push(format!("SD.{}.{}", i * 16, chunk(16, i)));
+        }
+        msgs.extend(["DC.6".to_string(), "QS.3".into(), "PC.3".into(), "QS.3".into(), format!("RO.3.{}", trans_op)]);
+        let prior = msgs.len();
+        for i in 0..later {
+            msgs.push(match i % 4 {
+                0 => "QS.9".to_string(),
+                1 => "HE.5".to_string(),
+                2 => "SD.0.01".to_string(),
+                _ => "DC.7".to_string(),
+            });
+        }
+        msgs.push("QS.3".into());
+        let line = format!("BUS 2 3 M 5 A {}", msgs.join(" "));
+        let res = ctx.case(line, true, "long-lived-bus");
+        let toks: Vec<&str> = res.split(" # ").next().unwrap_or("").split(' ').filter(|s| !s.is_empty()).collect();
+        let obs_of = |t: &str| t.split('/').nth(1).unwrap_or("?").to_string();
+        let mut verdict: Option<String> = None;
+        if toks.len() != msgs.len() {
+            verdict = Some(format!("{} results for {} messages", toks.len(), msgs.len()));
+        } else {
+            let at_rest = obs_of(toks[prior - 1]);
+            if !at_rest.starts_with("PSP") {
+                verdict = Some(format!("the sign did not reach page-show-in-progress: {}", at_rest));
+            }
+            for (i, t) in toks.iter().enumerate().skip(prior).take(later) {
+                if obs_of(t) != at_rest && verdict.is_none() {
+                    verdict = Some(format!("message #{} ({}) for somebody else changed sign 3 from {} to {}", i + 1, msgs[i], at_rest, obs_of(t)));
+                }
+            }
+        }
+        ctx.monitor(verdict.is_none(), "C14-isolation", &format!("BUS 2 3 M 5 A <configure, one page, show> then {} messages for others", later), verdict.as_deref().unwrap_or(""));
     }
 }
 
